@@ -1419,3 +1419,13 @@ m('AL1-all-leaves-rejects-the-leaves', 'C03', 'AL1', 'AllLeavesImpl/no-on-a-non-
   """        if (PyTreeTypeRegistry::GetKind<NoneIsLeaf>(handle, custom, registry_namespace) ==
             PyTreeKind::Leaf) [[unlikely]] {
             return false;""")
+m('N2w-paths-shortcut-for-every-one-leaf-treespec-but-the-leaf', 'C04', 'N2w', 'Paths/shortcut', 'src/treespec/treespec.cpp',
+  """    if (num_nodes == 1 && num_leaves == 1) [[likely]] {
+        paths.emplace_back();
+        return paths;""",
+  """    if (num_nodes != 1 && num_leaves == 1) [[likely]] {
+        paths.emplace_back();
+        return paths;""")
+m('K8-broadcast-recursion-does-not-count-one-level', 'C16', 'K8', 'BroadcastToCommonSuffixImpl/depth-check', 'src/treespec/treespec.cpp',
+  """            BroadcastToCommonSuffixImpl(nodes, traversal, cur, other_traversal, other_cur, depth + 1);""",
+  """            BroadcastToCommonSuffixImpl(nodes, traversal, cur, other_traversal, other_cur, depth + 0);""")
